@@ -173,14 +173,15 @@ def heavy_copies(rows, quick, rng):
 
 def retry_copies(rows, quick, rng):
     """heavy copies of the constructed repetition histories: hs = the whole signing loop, hv = the verification equation,
-    hg = the public key.  quick: one dstu curve of the five smallest fields (all plans) and one of the next three (the s = 0
-    plan), one 256-bit g12s set, bign96 - chosen by the seed; thorough: everything.  A line on which the library did not use
-    the planned number of draws (or failed) always gets the loop copy: only the specification may decide it."""
+    hg = the public key.  quick: one dstu curve of the five smallest fields (plans s0 and e0,r0,s0: every branch), the s0 plan on
+    one of the next two fields, one 256-bit g12s set (plans s0 and kmax,s0,k0), bign96 - chosen by the seed; thorough: every
+    set and plan.  A line on which the library did not use the planned number of draws (or failed) always gets the loop copy:
+    only the specification may decide it."""
     out = []
     dstu_m = sorted({x["f"][0] for x in rows if x["op"] == "dstuRetry"})
     g256 = sorted({x["name"] for x in rows if x["op"] == "g12sRetry" and x["l"] == 256})
     pick_d1 = rng.choice(dstu_m[:5]) if dstu_m else None
-    pick_d2 = rng.choice(dstu_m[5:8]) if len(dstu_m) > 5 else None
+    pick_d2 = rng.choice(dstu_m[5:7]) if len(dstu_m) > 5 else None
     pick_g = rng.choice(g256) if g256 else None
     for row in rows:
         op = row["op"]
@@ -190,21 +191,26 @@ def retry_copies(rows, quick, rng):
         odd = row.get("rcSign") != 0 or row.get("drawsSign") != len(row.get("want", []))
         if op == "dstuRetry":
             m = row["f"][0]
-            full = (not quick) or m == pick_d1
-            some = quick and m == pick_d2 and plan == "s0"
+            loop = (not quick) or (m == pick_d1 and plan in ("s0", "e0,r0,s0")) or (m == pick_d2 and plan == "s0")
+            ver = "s0" in plan.split(",") if not quick else (m == pick_d1 and plan == "s0")
+            gen = plan == "s0" and (not quick or m == pick_d1)
             cost = (m / 163.0) ** 2 * 7
         elif op == "g12sRetry":
-            full = (not quick) or row["name"] == pick_g
-            some = False
+            loop = (not quick) or (row["name"] == pick_g and plan in ("s0", "kmax,s0,k0"))
+            ver = "s0" in plan.split(",") if not quick else (row["name"] == pick_g and plan == "s0")
+            gen = plan == "s0" and not quick
             cost = 18 if row["l"] == 256 else 215
         else:
-            full, some, cost = True, False, 10
+            loop = True
+            ver = plan == "k0,kq,kmax"
+            gen = plan == "k0,kq,kmax" and not quick
+            cost = 10
         nmul = sum(1 for w in row.get("want", []) if w in ("r=0", "s=0", "used"))
-        if full or some or odd:
+        if loop or odd:
             out.append(dict(row, hs=1, copy="loop", cost=int(cost * nmul)))
-        if full and "s0" in plan.split(",") and (plan in ("s0", "e0,r0,s0", "kmax,s0,k0") or not quick) or (op == "bign96Retry" and plan == "k0,kq,kmax"):
+        if ver:
             out.append(dict(row, hv=1, copy="verify", cost=int(cost * 2)))
-        if full and plan in ("s0", "k0,kq,kmax"):
+        if gen:
             out.append(dict(row, hg=1, copy="gen", cost=int(cost)))
     return out
 
@@ -252,6 +258,9 @@ def run(ctx):
     base = [x for x in rows if "variant" not in x]
     heavy = heavy_copies(base, ctx.quick, rng) + retry_copies(base, ctx.quick, random.Random(int(ctx.seed) * 7919 + 16))
     # the expensive copies first: TLC's workers take the lines in order, so the long evaluations start at once
+    for h in heavy:
+        if "cost" not in h:
+            h["cost"] = {"g12s": 18 if h.get("l") == 256 else 215, "bign96": 10, "pfok": 30}.get(h["op"], int((h["f"][0] / 163.0) ** 2 * 7) if h["op"] == "dstu" else 5)
     heavy.sort(key=lambda x: -x.get("cost", 0))
     lines = heavy + rows
     t2 = time.time()
